@@ -201,6 +201,19 @@ theorem set_precedes_emit :
       let ex := expand acts
       !(ex.any isEventAct) || (ex.takeWhile (fun a => !isEventAct a)).any isSetAct) = true := by decide
 
+/-- a listener that raises during one of the four step events leaves the context in that (legally entered)
+state with the earlier events of the step delivered; from there every context method is refused without
+any effect (`context_call_atomic`, `context_call_table`) – the run cannot silently continue. -/
+theorem listener_failure_keeps_entered_state :
+    (["time_step__prepare", "time_step", "time_step__cleanup", "collect_metrics"].all fun e =>
+      match callCtl "step" { (coherent "collect_metrics" []) with failOn := e } with
+      | .ok _ => false
+      | .error (f, c) =>
+        f == .other && c.st == e && c.failOn == "" &&
+        c.log == (["time_step__prepare", "time_step", "time_step__cleanup", "collect_metrics"].takeWhile (· ≠ e)).map ("emit:" ++ ·) &&
+        (e == "collect_metrics" || methods.all fun m =>
+          match callCtl m c with | .ok _ => false | .error (_, c') => c' == c)) = true := by decide
+
 -- non-vacuity: the hypotheses of the general theorems are inhabited by the engine lifecycle
 example : Legal lifecycle "initialization" ["setup", "post_setup", "population_creation", "time_step__prepare"] := by
   refine .cons (by decide) (by decide) (.cons (by decide) (by decide) (.cons (by decide) (by decide)
